@@ -8,9 +8,11 @@ cd /repo || exit 2
 if ! git diff --quiet; then echo "seedtest: /repo has uncommitted changes"; exit 2; fi
 git apply "$SD/patch.diff" || { echo "seedtest: patch does not apply"; exit 2; }
 cd /verif
+cp -f evidence/$P.json /tmp/seedtest.$$.ev 2>/dev/null
 VERIF_SEED=${VERIF_SEED:-1} ./check "$P" --tier "$TIER" > /tmp/seedtest.$$.out 2>/tmp/seedtest.$$.err
 rc=$?
 git -C /repo checkout -- .
+[ -f /tmp/seedtest.$$.ev ] && mv -f /tmp/seedtest.$$.ev evidence/$P.json
 grep -h "VIOLATION\|KNOWN-FINDING\|^OK" /tmp/seedtest.$$.out
 if [ $rc -ne 0 ] && grep -q "^VIOLATION" /tmp/seedtest.$$.out; then echo "DETECTED $SD by $P ($TIER)"; else echo "MISSED $SD by $P ($TIER)"; fi
 rm -f /tmp/seedtest.$$.out /tmp/seedtest.$$.err
